@@ -50,6 +50,37 @@ theorem generated_pipeline_ok :
       "qualify_outputs", "_expand_group_by", "_expand_order_by_and_distinct_on"] := by
   decide
 
+/-! ## table-sensitive dialects and the default db / catalog -/
+
+/-- **default_qualifier_case_preserved.**  Under a table-sensitive dialect (BigQuery: the override is present and
+    the strategy is CASE_INSENSITIVE) the default `db` / `catalog` handed to `qualify` / `qualify_tables` keeps its
+    spelling exactly — because the `is_table` tag is set BEFORE normalisation (`tagFirst`), for any case maps. -/
+theorem default_qualifier_case_preserved (f : CaseFns) (i : Ident) :
+    defaultQualifier f true .caseInsensitive true i = i := by
+  simp [defaultQualifier, normalizeT, tableCaseSensitive, TableCtx.plain]
+
+/-- the order the source uses today (re-extracted each run) is that one -/
+theorem generated_default_qualifier_ok : Generated.C10.defaultQualifierTagFirst = true := by decide
+
+/-- and it matters: with the tag set only after normalising, `MyDs` becomes `myds` (the schema lookup then misses) -/
+theorem default_qualifier_needs_tag_first :
+    (defaultQualifier asciiFns true .caseInsensitive false ⟨"MyDs", false⟩).name = "myds" := by decide +kernel
+
+/-- for every other dialect the tag is irrelevant: `normalizeT` is `Ident.normalize` -/
+theorem normalizeT_base (f : CaseFns) (s : Strategy) (c : TableCtx) (i : Ident) :
+    normalizeT f false s c i = normalize f s i := by
+  simp [normalizeT]
+
+/-- table parts stay as written, everything else is folded whatever its quoting (BigQuery's rule), and folding is idempotent -/
+theorem normalizeT_table_sensitive (f : CaseFns) (hf : f.Ok) (c : TableCtx) (i : Ident) :
+    (tableCaseSensitive c = true → normalizeT f true .caseInsensitive c i = i)
+    ∧ normalizeT f true .caseInsensitive c (normalizeT f true .caseInsensitive c i) = normalizeT f true .caseInsensitive c i := by
+  constructor
+  · intro h; simp [normalizeT, h]
+  · by_cases h : tableCaseSensitive c = true
+    · simp [normalizeT, h]
+    · simp [normalizeT, h, hf.lower_idem]
+
 /-! ## the scope model -/
 
 /-- **qualify_complete** (one scope).  If qualification of a scope succeeds then every source has an alias, the
@@ -73,12 +104,12 @@ def isOptErr : Except Err Scope → Bool
   | .error .optimize => true
   | _ => false
 def sc1 (srcs : List Src) (w : Expr) : Scope :=
-  { outer := [], srcs := srcs, projs := [.item (.lit 1) none], whr := some w, group := [], having := none, order := [] }
+  { outer := [], joins := [], srcs := srcs, projs := [.item (.lit 1) none], whr := some w, group := [], having := none, order := [] }
 def tSrc : Src := ⟨.table ["t"], none⟩
 def uSrc : Src := ⟨.table ["u"], none⟩
 
 /-- non-vacuity: `SELECT a + 1 AS x, x * 2 AS y, * FROM t WHERE x > 1 ORDER BY y` qualifies -/
-example : (match qualifyModel g0 σ0 [{ outer := [], srcs := [tSrc], projs := [.item (.bin .add (.col none "a") (.lit 1)) (some "x"), .item (.bin .mul (.col none "x") (.lit 2)) (some "y"), .star none []], whr := some (.bin .gt (.col none "x") (.lit 1)), group := [], having := none, order := [.col none "y"] }] with
+example : (match qualifyModel g0 σ0 [{ outer := [], joins := [], srcs := [tSrc], projs := [.item (.bin .add (.col none "a") (.lit 1)) (some "x"), .item (.bin .mul (.col none "x") (.lit 2)) (some "y"), .star none []], whr := some (.bin .gt (.col none "x") (.lit 1)), group := [], having := none, order := [.col none "y"] }] with
     | .ok [s'] => s'.projs.length == 4 && s'.whr == some (.bin .gt (.paren (.bin .add (.col (some "t") "a") (.lit 1))) (.lit 1))
     | _ => false) = true := by decide +kernel
 
@@ -110,10 +141,57 @@ theorem star_expansion_schema_order (cn : Nat → String) (env : Env) (hg : ∀ 
 example : ∀ e ∈ ([("t", ["a", "b"]), ("u", ["b", "c"])] : Env), GoodSrc e := by
   intro e he; simp at he; rcases he with rfl | rfl <;> simp [GoodSrc, hasDup]
 
+/-- **star_expansion_using** (the merge-membership test of `_expand_stars`).  With USING / NATURAL merges recorded
+    in `ct` (merged column ↦ tables merged over it), the star over a table `t` that takes no part in the merge of any
+    of its columns — e.g. a table joined with ON that merely has a column named like a USING column — expands to
+    exactly `t`'s own columns in schema order, provided no earlier star of the select already coalesced one of them
+    (that proviso is real: see `star_using_drops_later_column_witness`, a known finding). -/
+theorem star_expansion_using (ct : ColTables) (t : String) (exc cols coal : List String)
+    (hout : ∀ c ∈ cols, ∀ e, ct.find? (fun e => e.1 == c) = some e → e.2.contains t = false)
+    (hco : ∀ c ∈ cols, coal.contains c = false) :
+    starColsU ct t exc coal cols = (starCols t exc cols, coal) :=
+  starColsU_outside ct t exc cols coal hout hco
+
+/-- and a table that does take part gets the merged column once, as COALESCE over the merge tables, named like the column -/
+theorem star_expansion_using_merged (ct : ColTables) (t c : String) (exc cs coal ts : List String)
+    (hx : exc.contains c = false) (hc : coal.contains c = false)
+    (hf : ct.find? (fun e => e.1 == c) = some (c, ts)) (ht : ts.contains t = true) :
+    starColsU ct t exc coal (c :: cs)
+      = (.item (.coalesce (ts.map (fun x => (x, c)))) (some c) :: (starColsU ct t exc (coal ++ [c]) cs).1,
+         (starColsU ct t exc (coal ++ [c]) cs).2) := by
+  have hx' : ¬ c ∈ exc := by simpa using hx
+  have hc' : ¬ c ∈ coal := by simpa using hc
+  have ht' : t ∈ ts := by simpa using ht
+  simp [starColsU, hx', hc', hf, ht']
+
+def σ3 : Schema := [(["x"], ["a", "b"]), (["y"], ["b", "c"]), (["z"], ["b", "c"])]
+def xyz (projs : List Proj) : Scope :=
+  { outer := [], srcs := [⟨.table ["x"], none⟩, ⟨.table ["y"], none⟩, ⟨.table ["z"], none⟩],
+    joins := [⟨false, ["b"], none⟩, ⟨false, [], some (.bin .eq (.col (some "y") "c") (.col (some "z") "c"))⟩],
+    projs := projs, whr := none, group := [], having := none, order := [] }
+
+/-- `SELECT z.* FROM x JOIN y USING (b) JOIN z ON y.c = z.c`: z's own b and c (seeded regression B gave COALESCE(x.b, y.b));
+    the USING join became `ON x.b = y.b`; `SELECT b …` becomes `COALESCE(x.b, y.b) AS b` -/
+theorem star_expansion_using_witness :
+    (match qualifyScope g0 σ3 [] (xyz [.star (some "z") []]), qualifyScope g0 σ3 [] (xyz [.item (.col none "b") none]) with
+     | .ok s1, .ok s2 =>
+       s1.projs == [.item (.col (some "z") "b") (some "b"), .item (.col (some "z") "c") (some "c")]
+       && (s1.joins.map (·.on)) == [some (.bin .eq (.col (some "x") "b") (.col (some "y") "b")),
+                                    some (.bin .eq (.col (some "y") "c") (.col (some "z") "c"))]
+       && s2.projs == [.item (.coalesce [("x", "b"), ("y", "b")]) (some "b")]
+     | _, _ => false) = true := by decide +kernel
+
+/-- known finding C10-star-using-drops-later-same-named-column, reproduced by the model: in `SELECT * …` over the same
+    joins the set of coalesced names is per select, so z.b is dropped: a, COALESCE(x.b, y.b) AS b, y.c, z.c -/
+theorem star_using_drops_later_column_witness :
+    (match qualifyScope g0 σ3 [] (xyz [.star none []]) with
+     | .ok s1 => outNames s1.projs == ["a", "b", "c", "c"]
+     | _ => false) = true := by decide +kernel
+
 /-- the order is `references` order: derived tables after tables, whatever the FROM order (known finding
     C10-star-order-derived-after-tables): `SELECT * FROM (scope 0) AS d, t` lists t's columns first -/
 theorem star_order_tables_first_witness :
-    (match qualifyScope g0 σ0 [["c"]] { outer := [], srcs := [⟨.scope 0 true, some "d"⟩, tSrc], projs := [.star none []], whr := none, group := [], having := none, order := [] } with
+    (match qualifyScope g0 σ0 [["c"]] { outer := [], joins := [], srcs := [⟨.scope 0 true, some "d"⟩, tSrc], projs := [.star none []], whr := none, group := [], having := none, order := [] } with
      | .ok s' => outNames s'.projs == ["a", "b", "c"]
      | _ => false) = true := by decide +kernel
 
@@ -127,7 +205,7 @@ theorem unresolved_raises (g : Gen) (σ : Schema) (outs : List (List String)) (s
   obtain ⟨_, _, names, hv, hn⟩ := qualifyScope_complete g σ outs s s' h
   refine ⟨names, ?_, hn⟩
   simp only [validate, hw, Bool.and_eq_true] at hv
-  exact hv.1.1.1.2
+  exact hv.1.1.1.1.2
 
 /-- concretely: an unknown name in WHERE, an ambiguous name, an unknown qualified column and a duplicate alias
     all raise (finite witnesses, decided by evaluation) -/
@@ -138,6 +216,100 @@ theorem unresolved_raises_witnesses :
     && isOptErr (qualifyScope g0 σ0 [] (sc1 [tSrc] (.col (some "u") "c")))
     && isOptErr (qualifyScope g0 σ0 [] (sc1 [⟨.table ["t"], some "x"⟩, ⟨.table ["u"], some "x"⟩] (.lit 1)))) = true := by
   decide +kernel
+
+/-- **qualify_idempotent** (one scope, whole pipeline A–G).  If qualification returns `s'`, the stars of `s'` were
+    expanded and no bare name is left under its HAVING, then qualifying `s'` again (same schema, same child
+    outputs) returns exactly `s'`.  The two premises are stated on the RESULT and are the complement of
+    (i) the documented "source with unknown / duplicate columns: keep the star" case — not covered by the proof,
+    checked by correspondence — (i') a first pass over USING / NATURAL joins (`hasMerge`; the generated ON
+    conditions are not re-checked by the code on that pass, see known finding
+    C10-using-column-missing-on-left-not-checked-first-pass; covered by correspondence, second application) and (ii) known findings C10-having-bare-name-unvalidated / -not-idempotent
+    (`having_bare_not_idempotent_counterexample` below shows (ii) is needed).
+    The name-level model identifies `Column` nodes that differ only in quoted flags, which is what the code sees
+    on every second pass (all identifiers quoted) and on a first pass over uniformly quoted text; the
+    quoted-flag-dependent ORDER BY rewrite (known finding C10-order-by-alias-quoted-source-not-idempotent) is
+    outside what a name-level model can express and is excluded from the correspondence stream. -/
+theorem qualify_idempotent_scope (g : Gen) (σ : Schema) (outs : List (List String)) (s s' : Scope)
+    (h : qualifyScope g σ outs s = .ok s') (hm : hasMerge s.joins = false) (hr : Resolved s') :
+    qualifyScope g σ outs s' = .ok s' :=
+  (qualifyScope_fixed g σ outs s s' h hm hr).1
+
+/-- **qualify_idempotent** for a whole flattened query (any number of scopes): the child outputs seen by each
+    scope are the same on the second pass because each scope is returned unchanged. -/
+theorem qualify_idempotent (g : Gen) (σ : Schema) (q q' : List Scope)
+    (h : qualifyModel g σ q = .ok q') (hm : ∀ s ∈ q, hasMerge s.joins = false) (hr : ∀ s' ∈ q', Resolved s') :
+    qualifyModel g σ q' = .ok q' :=
+  qualifyFrom_fixed g σ q [] q' h hm hr
+
+/-- non-vacuity: the result of `SELECT a + 1 AS x, * FROM t WHERE x > 1 GROUP BY 1 HAVING a > 0 ORDER BY 2` is `Resolved` -/
+example : (match qualifyModel g0 σ0 [{ outer := [], joins := [], srcs := [tSrc], projs := [.item (.bin .add (.col none "a") (.lit 1)) (some "x"), .star none []], whr := some (.bin .gt (.col none "x") (.lit 1)), group := [.lit 1], having := some (.bin .gt (.col none "a") (.lit 0)), order := [.lit 2] }] with
+    | .ok [s'] => !hasStar s'.projs && (match s'.having with | some e => noBare e | none => true)
+    | _ => false) = true := by decide +kernel
+
+/-- premise (ii) is needed: `SELECT a + 1 FROM t GROUP BY a HAVING _col_0 > 1` is returned with the bare name
+    `_col_0` under HAVING (nothing validates it), and the second pass — where `_col_0` has become a projection
+    alias — expands it: the model is NOT idempotent there, exactly as the real code. -/
+theorem having_bare_not_idempotent_counterexample :
+    (match qualifyModel g0 σ0 [{ outer := [], joins := [], srcs := [tSrc], projs := [.item (.bin .add (.col none "a") (.lit 1)) none], whr := none, group := [.col none "a"], having := some (.bin .gt (.col none "_col_0") (.lit 1)), order := [] }] with
+    | .ok q' => (match qualifyModel g0 σ0 q' with
+        | .ok q'' => q'' != q' && (q''.map (·.having)) == [some (.bin .gt (.paren (.bin .add (.col (some "t") "a") (.lit 1))) (.lit 1))]
+        | _ => false)
+    | _ => false) = true := by decide +kernel
+
+/-- **what `validate_qualify_columns` sees.**  Every column of the projections, WHERE and GROUP BY must name one
+    of the scope's aliases; in ORDER BY bare names equal to an output name are exempt; under HAVING only QUALIFIED
+    references are seen at all — a bare name there is invisible to validation (and to `_qualify_columns`). -/
+theorem validate_sees (names : List String) (s : Scope) :
+    validate names s = true ↔
+      (∀ p ∈ s.projs, projVisible names p = true)
+      ∧ (∀ e, s.whr = some e → visible names [] e = true)
+      ∧ (∀ e ∈ s.group, visible names [] e = true)
+      ∧ (∀ e, s.having = some e → visibleHaving names e = true)
+      ∧ (∀ e ∈ s.order, visible names (namedSelects s.projs) e = true)
+      ∧ (∀ j ∈ s.joins, ∀ e, j.on = some e → visible names [] e = true) := by
+  simp only [validate, Bool.and_eq_true, List.all_eq_true]
+  constructor
+  · rintro ⟨⟨⟨⟨⟨h1, h2⟩, h3⟩, h4⟩, h5⟩, h6⟩
+    refine ⟨h1, ?_, h3, ?_, h5, ?_⟩
+    · intro e he; rw [he] at h2; exact h2
+    · intro e he; rw [he] at h4; exact h4
+    · intro j hj e he; have := h6 j hj; rw [he] at this; exact this
+  · rintro ⟨h1, h2, h3, h4, h5, h6⟩
+    refine ⟨⟨⟨⟨⟨h1, ?_⟩, h3⟩, ?_⟩, h5⟩, ?_⟩
+    · cases hw : s.whr with
+      | none => rfl
+      | some e => exact h2 e hw
+    · cases hw : s.having with
+      | none => rfl
+      | some e => exact h4 e hw
+    · intro j hj
+      cases hw : j.on with
+      | none => rfl
+      | some e => exact h6 j hj e hw
+
+/-- HAVING is checked strictly less than WHERE: whatever passes the WHERE test passes the HAVING test, and a bare
+    name — which the WHERE test rejects — always passes it -/
+theorem validate_having_blind_to_bare_names (names : List String) (n : String) :
+    visibleHaving names (.col none n) = true ∧ visible names [] (.col none n) = false
+    ∧ ∀ e, visible names [] e = true → visibleHaving names e = true := by
+  refine ⟨rfl, by simp [visible], ?_⟩
+  intro e
+  induction e with
+  | col t n =>
+    intro h
+    cases t with
+    | none => rfl
+    | some t => simpa [visible, visibleHaving] using h
+  | lit k => intro _; rfl
+  | bin op l r ihl ihr =>
+    intro h
+    simp only [visible, Bool.and_eq_true] at h
+    simp [visibleHaving, ihl h.1, ihr h.2]
+  | paren e ih =>
+    intro h
+    simp only [visible] at h
+    simp [visibleHaving, ih h]
+  | coalesce args => intro h; simpa [visible, visibleHaving] using h
 
 /-- **qualify_idempotent, partial.**  On a scope in the form `qualify_complete` guarantees (all projections
     aliased, no bare column left) the second pass's alias expansion (C), star expansion (D) and output
@@ -157,8 +329,36 @@ theorem qualify_idempotent_all_partial (cn : Nat → String) (ps : List Proj) (o
   qualifyOutputs_allAliased cn ps 0 outer h
 
 /-- concrete second application (decided by evaluation): the result of the non-vacuity example re-qualifies to itself -/
-example : (match qualifyModel g0 σ0 [{ outer := [], srcs := [tSrc], projs := [.item (.bin .add (.col none "a") (.lit 1)) (some "x"), .star none []], whr := some (.bin .gt (.col none "x") (.lit 1)), group := [.lit 1], having := none, order := [.lit 2] }] with
+example : (match qualifyModel g0 σ0 [{ outer := [], joins := [], srcs := [tSrc], projs := [.item (.bin .add (.col none "a") (.lit 1)) (some "x"), .star none []], whr := some (.bin .gt (.col none "x") (.lit 1)), group := [.lit 1], having := none, order := [.lit 2] }] with
     | .ok q' => (match qualifyModel g0 σ0 q' with | .ok q'' => q'' == q' | _ => false)
+    | _ => false) = true := by decide +kernel
+
+/-- **output_names_preserved** (one scope, whole pipeline).  Independent SPEC of the output names: replace each star
+    by its sources' columns (minus its EXCEPT list; `references` × schema order), take the alias if there is one, else
+    the name of the expression (a column's name, a literal's text), else `_col_i` by position; an outer column list
+    (CTE / derived-table alias columns) overrides position by position.  If qualification succeeds with its stars
+    expanded, the output names are exactly that — provided no UNALIASED projection is headed by a bare name that
+    resolves to no source (`NamesStable`; such a projection can only be a reference to an earlier alias, which the code
+    replaces by the aliased expression and renames: `alias_ref_projection_renamed_counterexample`, a known finding).
+    Scopes with USING / NATURAL joins are not covered by this proof (checked by correspondence and the search oracle). -/
+theorem output_names_preserved (g : Gen) (σ : Schema) (outs : List (List String)) (s s' : Scope)
+    (h : qualifyScope g σ outs s = .ok s') (hm : hasMerge s.joins = false) (hstar : hasStar s'.projs = false) :
+    ∃ srcs' env0, mkEnv g σ outs s.srcs = some (srcs', env0) ∧
+      (NamesStable (refOrder env0) s.projs →
+        outNames s'.projs = overlay s.outer (nameAll g.colName 0 (expandSpec (refOrder env0) s.projs))) := by
+  obtain ⟨srcs', env0, hme, _, hb, _⟩ := qualifyScope_ok g σ outs s s' h
+  refine ⟨srcs', env0, hme, ?_⟩
+  intro hst
+  rw [buildScope_noMerge g _ srcs' s hm] at hb
+  split at hb
+  · simp at hb
+  · exact buildCore_names g _ srcs' _ false _ s s' hb hstar hst
+
+/-- non-vacuity: `SELECT a AS x, *, b + 1, u.c FROM t, u` with outer column list (p) over t(a,b), u(b,c) is `NamesStable` and
+    gets the names p, a, b, b, c, _col_5, c -/
+example : (match qualifyScope g0 σ0 [] { outer := ["p"], joins := [], srcs := [tSrc, uSrc], projs := [.item (.col none "a") (some "x"), .star none [], .item (.bin .add (.col (some "t") "b") (.lit 1)) none, .item (.col (some "u") "c") none], whr := none, group := [], having := none, order := [] } with
+    | .ok s' => outNames s'.projs == ["p", "a", "b", "b", "c", "_col_5", "c"]
+        && overlay ["p"] (nameAll g0.colName 0 (expandSpec [("t", ["a", "b"]), ("u", ["b", "c"])] [.item (.col none "a") (some "x"), .star none [], .item (.bin .add (.col (some "t") "b") (.lit 1)) none, .item (.col (some "u") "c") none])) == ["p", "a", "b", "b", "c", "_col_5", "c"]
     | _ => false) = true := by decide +kernel
 
 /-- **output names, partial.**  `qualify_outputs` names a projection by its alias if it has one, else by its column
@@ -175,14 +375,14 @@ theorem output_names_partial (cn : Nat → String) (e : Expr) (a : String) (i : 
     `SELECT a AS x, x FROM t` the second projection is a bare reference to the alias `x`; alias expansion replaces it
     by `t.a` and `qualify_outputs` then names it `a`: the output names change from [x, x] to [x, a]. -/
 theorem alias_ref_projection_renamed_counterexample :
-    (match qualifyScope g0 σ0 [] { outer := [], srcs := [tSrc], projs := [.item (.col none "a") (some "x"), .item (.col none "x") none], whr := none, group := [], having := none, order := [] } with
+    (match qualifyScope g0 σ0 [] { outer := [], joins := [], srcs := [tSrc], projs := [.item (.col none "a") (some "x"), .item (.col none "x") none], whr := none, group := [], having := none, order := [] } with
      | .ok s' => outNames s'.projs == ["x", "a"]
      | _ => false) = true := by decide +kernel
 
 /-- counter-example to the FULL statement (known finding C10-having-bare-name-unvalidated): a bare name in HAVING
     that resolves to nothing survives qualification (`SELECT a FROM t GROUP BY a HAVING zzz > 1`) -/
 theorem having_bare_counterexample :
-    (match qualifyScope g0 σ0 [] { outer := [], srcs := [tSrc], projs := [.item (.col none "a") none], whr := none, group := [.col none "a"], having := some (.bin .gt (.col none "zzz") (.lit 1)), order := [] } with
+    (match qualifyScope g0 σ0 [] { outer := [], joins := [], srcs := [tSrc], projs := [.item (.col none "a") none], whr := none, group := [.col none "a"], having := some (.bin .gt (.col none "zzz") (.lit 1)), order := [] } with
      | .ok s' => s'.having == some (.bin .gt (.col none "zzz") (.lit 1))
      | _ => false) = true := by decide +kernel
 
